@@ -1327,7 +1327,7 @@ mod c19 {
     // @features sound
     // @timeout 900
     // @fn ZXController::write_io (ULA arm) -> ZXBeeper::change_state; ZXController::wait_internal -> ZXController::frame_pos -> ZXMixer::process
-    // @sym machine, frame time, port (even, not claimed by another device), data
+    // @sym machine (literal per case), port (even, not an AY address), data, a second write to any odd port; frame time fixed (1000)
     // @assert an OUT to the ULA port latches speaker = bit 4 and MIC = bit 3 of the data before the next mixer step of that very port cycle, so samples generated from then on carry the new level
     // @bound one port write
     // @stub ZXMixer::process -> no-op (its effect is c19_mixer_step); ZXScreen::process_clocks -> no-op
@@ -1337,7 +1337,18 @@ mod c19 {
     #[kani::stub(crate::zx::video::screen::ZXScreen::process_clocks, noop_screen_clocks)]
     #[kani::stub(crate::zx::sound::mixer::ZXMixer::process, mh::noop_process)]
     fn c19_port_write_sets_beeper_level() {
-        let (mut c, _latch, _t) = any_controller_at(false, false);
+        // machine and frame time literal: with a symbolic clock every bus wait carries a symbolic f64
+        // division (frame position for the mixer) - port timing is C04's subject
+        if kani::any() {
+            port_write_case(ZXMachine::Sinclair48K);
+        } else {
+            port_write_case(ZXMachine::Sinclair128K);
+        }
+    }
+
+    fn port_write_case(m: ZXMachine) {
+        let mut c = mk_controller(m, FbCtx { wx: 0, wy: 0 }, false, false);
+        c.frame_clocks = 1000;
         let port: u16 = kani::any();
         kani::assume(port & 1 == 0 && port & 0xC002 != 0xC000 && port & 0xC002 != 0x8000);
         let data: u8 = kani::any();
